@@ -43,7 +43,7 @@ pub enum Viol {
     /// a proof is returned it verifies" is judged on such statements.
     CompressedCopy { j: u16, opens_compressed: bool },
     /// the statement's commitment generators were assembled by hand with one masking base fewer (false) or one more (true) than
-    /// the degree they declare; the witness has the declared degree. Not a valid generator set: an error, never a panic.
+    /// the degree they declare; the witness has the declared degree. Judged: never a panic, and a returned proof verifies.
     GensBaseCount(bool),
 }
 
@@ -170,6 +170,9 @@ pub fn oracle<E: Engine>(_ctx: &RunCtx, spec: &WitSpec, log: &mut CaseLog) -> Re
             Ok(params) => {
                 st = RangeStatement::init(params, commitments.clone(), promises.clone(), t.seed).map_err(|e| format!("statement: {:?}", e))?;
                 gens_invalid = true;
+                // whether such a set is refused, or used with its first `degree` bases, is not laid down by the property: only
+                // "never a panic" and "a returned proof verifies" are judged
+                judge_emission = false;
             },
             // a parameter constructor that refuses the set is fine as well
             Err(_) => applied = false,
@@ -331,7 +334,7 @@ pub fn def() -> PropertyDef {
                count (half / double / +1 / -1), witness degree +1 (extra component zero or not) or -1 (dropped component zero, so the short \
                opening still reproduces the commitment, or not), value +-1, one blinding component +1, two openings swapped, a value >= 2^bits \
                committed consistently (2^bits, 2^bits+1, u64::MAX; with or without a promise that brings value - promise back into range), a \
-               promise above the value (v+1, 2^bits-1, u64::MAX); or a hand-edited statement (public fields) whose compressed copy of commitment j encodes another commitment, the witness opening either of the two - on these only 'a returned proof verifies' is judged; or commitment generators assembled by hand with one masking base fewer / more than the degree they declare (an error, never a panic). Oracle: prove_with_rng is Ok <=> an independently written validity predicate \
+               promise above the value (v+1, 2^bits-1, u64::MAX); or a hand-edited statement (public fields) whose compressed copy of commitment j encodes another commitment, the witness opening either of the two - on these only 'a returned proof verifies' is judged; or commitment generators assembled by hand with one masking base fewer / more than the degree they declare (never a panic; a returned proof verifies). Oracle: prove_with_rng is Ok <=> an independently written validity predicate \
                (counts, degree, value*h + sum r_k*g_k == commitment under the statement's generators by independent arithmetic, value < 2^bits in 128-bit arithmetic, promise <= value); Ok => the proof verifies; Err => no panic. Non-trivial = exactly one applied violation, or a boundary value (2^bits-1, \
                promise == value); distinct by (violation incl. position, bits, m, degree, validity)."
             .into(),
